@@ -26,6 +26,13 @@ def tree_key(repo):
     return h.hexdigest()[:20]
 
 
+def _atomic(path, txt):
+    tmp = "%s.tmp%d" % (path, os.getpid())
+    with open(tmp, "w") as f:
+        f.write(txt)
+    os.replace(tmp, path)
+
+
 def generate(repo, tag, force=False):
     outv = os.path.join(ROOT, "coq", "Gen", "IR%s.v" % tag)
     outj = os.path.join(ROOT, "_work", "gen", "ir_%s.json" % tag)
@@ -39,12 +46,12 @@ def generate(repo, tag, force=False):
         txt = open(cv).read()
         if not os.path.exists(outv) or open(outv).read() != txt:
             os.makedirs(os.path.dirname(outv), exist_ok=True)
-            open(outv, "w").write(txt)
+            _atomic(outv, txt)
         info = json.load(open(cj))
-        json.dump(info, open(outj, "w"))
+        _atomic(outj, json.dumps(info))
         return info
     t0 = time.time()
-    work = os.path.join(ROOT, "_work", "ast-" + tag)
+    work = os.path.join(ROOT, "_work", "ast-%s-%d" % (tag, os.getpid()))    # private: several checks may generate at once
     idx = astload.build_index(repo, work)
     tr = nif2ir.Translator(idx)
     types = nif2ir.registered_types(repo)
@@ -52,7 +59,7 @@ def generate(repo, tag, force=False):
         tr.block_ir(t)
     sizes = nif2ir.compute_sizes(repo, tr.need_sizes, work)
     tr = nif2ir.Translator(idx, sizes)
-    blocks, cover = [], {}
+    blocks, cover, enums = [], {}, {}
     for t in types:
         tr.counter = 0
         tr.expand_names = set()
@@ -65,6 +72,10 @@ def generate(repo, tag, force=False):
         acc = []
         nif2ir.count_opaque(ir, acc)
         bname = idx.records.get(t, {}).get("blockname", t)
+        cr, bad1 = tr.enum_names(t, "GetChildRefs")
+        pt, bad2 = tr.enum_names(t, "GetPtrs")
+        sr, bad3 = tr.enum_names(t, "GetStringRefs")
+        enums[bname] = (sorted(cr | pt), sorted(sr), sorted(set(bad1 + bad2 + bad3)))
         blocks.append((bname, t, ir, nif2ir._seq(tr.defaults(t))))
         cover[bname] = sorted(set(acc))
     # ids of field names, locals and block types are shared with the reference tree's table, so that the
@@ -88,14 +99,17 @@ def generate(repo, tag, force=False):
         blocks.sort(key=lambda b: b[4])
     else:
         blocks = [b + (i,) for i, b in enumerate(blocks)]
-    em = irgen.emit_file(outv, "source tree: %s" % repo, blocks, seed)
+    em = irgen.emit_file(outv, "source tree: %s" % repo, blocks, seed, enums)
     info = {"key": key, "repo": repo, "blocks": [b[0] for b in blocks], "classes": [b[1] for b in blocks], "ids": [b[4] for b in blocks],
             "names": em.names, "locals": em.locals, "opaque": {k: v for k, v in cover.items() if v},
+            "enum_unparsed": {k: v[2] for k, v in enums.items() if v[2]},
             "translated": sum(1 for v in cover.values() if not v), "seconds": round(time.time() - t0, 1)}
     os.makedirs(os.path.dirname(outj), exist_ok=True)
-    json.dump(info, open(outj, "w"))
-    json.dump(info, open(cj, "w"))
-    open(cv, "w").write(open(outv).read())
+    _atomic(outj, json.dumps(info))
+    _atomic(cj, json.dumps(info))
+    _atomic(cv, open(outv).read())
+    import shutil
+    shutil.rmtree(work, ignore_errors=True)
     # keep the cache small
     ents = sorted((os.path.getmtime(os.path.join(cdir, f)), f) for f in os.listdir(cdir))
     for _, f in ents[:-12]:
